@@ -4,7 +4,7 @@
 From Coq Require Import ZArith QArith Bool List.
 Require Import QV.C06.Model QV.C06.Spec QV.C06.Proofs_props QV.C06.Gen_sfg QV.C06.Proofs_sfg
   QV.C06.Model_vol QV.C06.Proofs_vol QV.C06.Proofs_vol_term QV.C06.Proofs_vol_mc QV.C06.Model_idx QV.C06.Proofs_idx
-  QV.C06.Proofs_r5 QV.C06.Proofs_r5_mc QV.C06.Proofs_r5_vol.
+  QV.C06.Proofs_r5 QV.C06.Proofs_r5_mc QV.C06.Proofs_r5_vol QV.C06.Model_cv QV.C06.Proofs_cv.
 (* [erase] unqualified is Model_idx.erase (forget the recorded index); Model_vol.erase forgets which counts are volatile *)
 Import ListNotations.
 Open Scope Z_scope.
@@ -408,3 +408,53 @@ Theorem C06_vol_roll_total : forall mq q sr t, tree_ok1b (Model_vol.erase t) = t
   exists t', vroll_constant_waveforms mq q sr t = Ok t'.
 Proof. exact vroll_total. Qed.
 Print Assumptions C06_vol_roll_total.
+
+(* ---- round 6: Waveform.constant_value(channel) and the short cut of Waveform.get_sampled (Model_cv.v).  The drivers
+   sample the leaves of the prepared program through get_sampled; for the composite leaves that to_waveform /
+   make_compatible build, the answer of constant_value is a computation over the parts.  [acv]: what the opaque atoms
+   answer per channel (oracle); [avolt]: their voltage functions. *)
+
+(* an answer is a promise about everything the waveform plays *)
+Theorem C06_constant_value_sound : forall acv w c x,
+  constant_value acv w c = Some x -> Forall (const_on acv c x) (wf_pieces w).
+Proof. exact constant_value_sound. Qed.
+Print Assumptions C06_constant_value_sound.
+
+(* executable form, what [Corr.check_spec] evaluates on the answers of the real objects *)
+Theorem C06_constant_value_admissible : forall acv w c, cv_admissible acv w c (constant_value acv w c) = true.
+Proof. exact constant_value_admissible. Qed.
+Print Assumptions C06_constant_value_admissible.
+
+Theorem C06_shortcut_plays : forall acv w c x t, wf_ok1b w = true ->
+  constant_value acv w c = Some x -> (0 <= t)%Q -> (t < wf_dur w)%Q ->
+  exists s y, play_at (wf_pieces w) t = Some s /\ sample_cv acv s c = Some y /\ (y == x)%Q.
+Proof. exact shortcut_plays. Qed.
+Print Assumptions C06_shortcut_plays.
+
+(* get_sampled = unsafe_sample at every time of the waveform, provided the atoms keep the promise of their own answers:
+   the pieces-preservation theorems above therefore also speak about what the drivers upload *)
+Theorem C06_get_sampled_eq_unsafe_sample : forall acv avolt w c t, acv_sound acv avolt -> wf_ok1b w = true ->
+  (0 <= t)%Q -> (t < wf_dur w)%Q ->
+  optQ_eq (get_sampled_at acv avolt w c t) (unsafe_at avolt w c t).
+Proof. exact get_sampled_eq_unsafe_sample. Qed.
+Print Assumptions C06_get_sampled_eq_unsafe_sample.
+
+(* the decision is complete (the short cut is taken whenever every piece is constant at one value) on waveforms without
+   an empty sequence inside; without that guard it is not ([WSeq [c; WSeq []]] answers None) *)
+Theorem C06_constant_value_complete : forall acv w c x, wf_ok1b w = true -> no_empty_seq w = true ->
+  Forall (const_on acv c x) (wf_pieces w) -> exists y, constant_value acv w c = Some y /\ (y == x)%Q.
+Proof. exact constant_value_complete_ne. Qed.
+Print Assumptions C06_constant_value_complete.
+
+Theorem C06_constant_value_complete_unguarded_refuted : exists acv w c x, wf_ok1b w = true /\ wf_pieces w <> [] /\
+  Forall (const_on acv c x) (wf_pieces w) /\ constant_value acv w c = None.
+Proof. exact constant_value_complete_refuted. Qed.
+Print Assumptions C06_constant_value_complete_unguarded_refuted.
+
+(* the loop with `not v` in place of `v is None` (seed C06-9): 0 V then 1 V is answered "constant at 1 V", which is not
+   admissible for the pieces; the loop of /repo answers None *)
+Theorem C06_constant_value_falsy_loop_refuted :
+  seq_cv_loop_falsy None [Some 0%Q; Some 1%Q] = Some 1%Q /\ seq_cv_loop None [Some 0%Q; Some 1%Q] = None
+  /\ cv_admissible (fun _ _ => None) (WSeq [WConst 4 [(0%N, 0%Q)]; WConst 12 [(0%N, 1%Q)]]) 0%N (Some 1%Q) = false.
+Proof. exact falsy_loop_refuted. Qed.
+Print Assumptions C06_constant_value_falsy_loop_refuted.
